@@ -42,12 +42,6 @@ Lemma wadd_small a b : a + b < W -> wadd a b = a + b.
 Proof. intros H. unfold wadd. apply N.mod_small. exact H. Qed.
 
 (* ---------- what an accepted step does, from a quiescent state ---------- *)
-Definition PendingOK (cons : consensus) (s : ustate) (r : N) (P : uparams) : Prop :=
-  us_next s <> [] /\ cons (us_current s) = Some P /\
-  us_voteBefore s <= us_switchOn s /\ r <= us_switchOn s /\ us_switchOn s < W /\
-  us_approvals s <= r /\
-  (us_voteBefore s < r -> up_threshold P <= us_approvals s).
-
 Lemma quiescent_eta s : quiescent s -> s = mkUS (us_current s) [] 0 0 0.
 Proof. destruct s; cbn. intros (A & B & C & D); cbn in *. subst. reflexivity. Qed.
 
@@ -249,16 +243,6 @@ Proof.
   split; [exact A|]. split; [exact B|]. split; lia.
 Qed.
 
-(* the switch at block k is the switch of the proposal that was already pending in [s] *)
-Definition concl_pending (r : N) (vs : list vote) (s : ustate) (bef : list ustate)
-           (k : nat) (sk' : ustate) (P : uparams) : Prop :=
-  r + N.of_nat k = us_switchOn s /\ us_current sk' = us_next s /\
-  up_threshold P <=
-    us_approvals s + count_approve (firstn (N.to_nat (us_voteBefore s - r)) vs) /\
-  (forall i si, (i <= k)%nat -> nth_error bef i = Some si ->
-     us_current si = us_current s /\ us_next si = us_next s /\
-     us_voteBefore si = us_voteBefore s /\ us_switchOn si = us_switchOn s).
-
 Lemma quiescent_mk c : quiescent (mkUS c [] 0 0 0).
 Proof. unfold quiescent. cbn. auto. Qed.
 
@@ -371,4 +355,94 @@ Proof.
         -- intros i si Hi Hnth. destruct i as [|i].
            ++ cbn in Hnth. inversion Hnth; subst si. auto.
            ++ cbn [nth_error] in Hnth. apply (Hbetween i si); [lia|exact Hnth].
+Qed.
+
+(* ---------- one proposal at a time (holds of every accepted step, any state) ---------- *)
+Lemma step_one_pending cons s r v s' :
+  step cons s r v = UOk s' -> v_propose v <> [] -> us_next s = [].
+Proof.
+  destruct s as [c n a vb so]. unfold step. cbn [us_current us_next].
+  destruct (cons c) as [P|]; [|discriminate]. rewrite phase_propose_mk.
+  intros H Hpe. apply ver_empty_false in Hpe. rewrite Hpe in H. cbn [negb] in H.
+  destruct (ver_empty n) eqn:Hn; [apply ver_empty_nil; exact Hn|]. cbn [negb] in H. discriminate.
+Qed.
+
+Lemma step_pending_stable cons s r v s' :
+  step cons s r v = UOk s' -> us_next s <> [] -> us_next s' <> [] ->
+  us_next s' = us_next s /\ us_voteBefore s' = us_voteBefore s /\
+  us_switchOn s' = us_switchOn s /\ us_current s' = us_current s.
+Proof.
+  destruct s as [c n a vb so]. unfold step. cbn [us_current us_next us_voteBefore us_switchOn].
+  destruct (cons c) as [P|]; [|discriminate]. rewrite phase_propose_mk.
+  intros H Hn Hn'. assert (Hne : ver_empty n = false) by (apply ver_empty_false; exact Hn).
+  rewrite Hne in H. cbn [negb] in H.
+  destruct (ver_empty (v_propose v)); cbn [negb] in H; [|discriminate].
+  destruct (v_delay v =? 0); cbn [negb] in H; [|discriminate].
+  rewrite phase_approve_mk, Hne in H.
+  assert (Hfin : forall a', UOk (phase_switch (phase_clear P (mkUS c n a' vb so) r) r) = UOk s' ->
+            us_next s' = n /\ us_voteBefore s' = vb /\ us_switchOn s' = so /\ us_current s' = c).
+  { intros a'. rewrite phase_clear_mk.
+    destruct ((r =? vb) && (a' <? up_threshold P)); rewrite phase_switch_mk.
+    - destruct (r =? 0); intros E; inversion E; subst s'; cbn in Hn'; congruence.
+    - destruct (r =? so); intros E; inversion E; subst s'; cbn in *; [congruence|auto]. }
+  destruct (v_approve v).
+  - destruct (vb <=? r); [discriminate|]. apply Hfin in H. exact H.
+  - apply Hfin in H. exact H.
+Qed.
+
+(* ---------- the trace is the sequence of steps ---------- *)
+Lemma trace_nth cons : forall vs s r sts k sk sk' v,
+  trace cons s r vs = Some sts ->
+  nth_error (s :: sts) k = Some sk -> nth_error sts k = Some sk' -> nth_error vs k = Some v ->
+  step cons sk (r + N.of_nat k) v = UOk sk'.
+Proof.
+  induction vs as [|v0 vs IH]; intros s r sts k sk sk' v Htr Hk Hk' Hv.
+  { destruct k; discriminate. }
+  cbn [trace] in Htr. destruct (step cons s r v0) as [s1|] eqn:Hstep; [|discriminate].
+  destruct (trace cons s1 (r + 1) vs) as [l|] eqn:Hl; [|discriminate].
+  inversion Htr; subst sts. destruct k as [|k]; cbn [nth_error] in *.
+  - inversion Hk; inversion Hk'; inversion Hv; subst. rewrite N.add_0_r. exact Hstep.
+  - replace (r + N.of_nat (S k)) with (r + 1 + N.of_nat k) by lia.
+    eapply IH; eassumption.
+Qed.
+
+Lemma trace_length cons : forall vs s r sts, trace cons s r vs = Some sts -> length sts = length vs.
+Proof.
+  induction vs as [|v0 vs IH]; intros s r sts Htr; cbn [trace] in Htr.
+  - inversion Htr. reflexivity.
+  - destruct (step cons s r v0) as [s1|]; [|discriminate].
+    destruct (trace cons s1 (r + 1) vs) as [l|] eqn:Hl; [|discriminate].
+    inversion Htr; subst sts. cbn. f_equal. eapply IH. exact Hl.
+Qed.
+
+(* ---------- the whole property on every accepted history ---------- *)
+Theorem trace_hist_ok cons B s0 r0 vs sts :
+  wf_cons cons B -> quiescent s0 -> 1 <= r0 -> r0 + N.of_nat (length vs) + B < W ->
+  trace cons s0 r0 vs = Some sts ->
+  hist_ok cons r0 s0 vs sts.
+Proof.
+  intros Hwf Hq Hr HB Htr k s s' v Hk Hk' Hv.
+  pose proof (trace_nth cons vs s0 r0 sts k s s' v Htr Hk Hk' Hv) as Hstep.
+  split; [|split].
+  - intros Hchg.
+    destruct (switch_classified cons B Hwf vs s0 r0 sts Hr HB Htr k s s' Hk Hk' Hchg) as [H _].
+    apply H. exact Hq.
+  - apply (step_one_pending _ _ _ _ _ Hstep).
+  - apply (step_pending_stable _ _ _ _ _ Hstep).
+Qed.
+
+(* a history that starts in the middle of a vote: the first switch is that of the pending
+   proposal (at its announced round, with the threshold reached over the whole window: the
+   approvals already counted plus those still to come), every later one is justified inside
+   the history *)
+Theorem trace_from_pending cons B s0 r0 vs sts P :
+  wf_cons cons B -> PendingOK cons s0 r0 P -> 1 <= r0 -> r0 + N.of_nat (length vs) + B < W ->
+  trace cons s0 r0 vs = Some sts ->
+  forall k s s', nth_error (s0 :: sts) k = Some s -> nth_error sts k = Some s' ->
+    us_current s' <> us_current s ->
+    concl_pending r0 vs s0 (s0 :: sts) k s' P \/ switch_justified cons r0 vs (s0 :: sts) k s s'.
+Proof.
+  intros Hwf HP Hr HB Htr k s s' Hk Hk' Hchg.
+  destruct (switch_classified cons B Hwf vs s0 r0 sts Hr HB Htr k s s' Hk Hk' Hchg) as [_ H].
+  apply H. exact HP.
 Qed.
